@@ -56,7 +56,7 @@ def f32(x: float) -> float:
 def rand_f32(rng) -> float:
     r = rng.random()
     if r < 0.25:
-        return rng.choice(F32_SPECIALS) if True else 0.0
+        return f32(rng.choice(F32_SPECIALS))
     if r < 0.5:
         return f32(rng.uniform(-1000, 1000))
     if r < 0.6:
@@ -181,10 +181,11 @@ def gen_value(rng, var, opts):
         return ["ip", ".".join(str(rng.choice([0, 1, 127, 255, rng.randint(0, 255)])) for _ in range(4))]
     if t == MsgType.MVT_FIXED:
         n = var.size
-        if var.probably_text and n >= 1 and rng.random() < 0.3 and not opts.get("bytes_only"):
+        text_like = var.probably_text and not var.probably_binary
+        if text_like and n >= 1 and rng.random() < 0.3 and not opts.get("bytes_only"):
             return ["s", "".join(rng.choice("abcXYZ09") for _ in range(n - 1))]
         b = bytes(rng.choice([0, 0xff, rng.getrandbits(8)]) for _ in range(n))
-        if var.probably_text and not _is_canonical_bytes_for_text(b):
+        if text_like and not _is_canonical_bytes_for_text(b):
             b = b[:-1] + b"\x01"
         return ["b", b]
     if t == MsgType.MVT_VARIABLE:
@@ -194,7 +195,7 @@ def gen_value(rng, var, opts):
             s = rand_text(rng, max_len, xml_safe=opts.get("xml_safe", False))
             if s is not None:
                 return ["s", s]
-        return ["b", rand_bytes(rng, max_len, text_like=var.probably_text)]
+        return ["b", rand_bytes(rng, max_len, text_like=text_like)]
     raise ValueError(f"unhandled type {t}")
 
 
